@@ -32,6 +32,8 @@ from hpstatic.terms import (sym, intern, show, subterms, calls_in, TRUE, FALSE,
 from hpstatic.xrnorm import atom_rewrite
 from .common import THEORY
 
+MUTATION_TARGETS = {'holopy/scattering/interface.py': ['calc_holo', 'calc_intensity', 'calc_field', 'calc_scat_matrix', 'finalize', 'prep_schema', 'scattered_field_to_hologram', 'interpret_theory'], 'holopy/core/metadata.py': ['to_vector', 'dict_to_array', 'update_metadata', 'copy_metadata']}
+
 LEVEL = 'other'
 META = dict(
     claimed=True,
